@@ -35,7 +35,9 @@ def run_variant(args):
         if entry['old'] not in s:
             out['applicable'] = False
             return out
-        if entry['id'] in REPLACE_ALL:
+        if entry.get('fn') is not None:
+            s2 = entry['fn'](s)
+        elif entry['id'] in REPLACE_ALL:
             s2 = s.replace(entry['old'], entry['new'])
         else:
             s2 = s.replace(entry['old'], entry['new'], 1)
